@@ -209,3 +209,19 @@ Proof.
   { destruct H as [H| ->]; [|apply andb_false_r]. replace (c =? 0) with false by (symmetry; apply Z.eqb_neq; lia). reflexivity. }
   apply no_header_loop.
 Qed.
+
+(* with the intervals left alone, the re-tunable form is the plain one *)
+Lemma runs_var_const zf lg obs : forall segments st, runs_var zf lg st (map (fun a => (obs, a)) segments) = runs zf lg obs st segments.
+Proof.
+  induction segments as [|a rest IH]; intro st; cbn [map runs_var runs]; [reflexivity|].
+  destruct (irun zf lg obs st a) as [e c]. rewrite IH. reflexivity.
+Qed.
+(* every observer call of a re-tuned run is decided by the interval in force in ITS segment *)
+Lemma runs_var_app zf lg : forall s1 s2 st,
+  runs_var zf lg st (s1 ++ s2) = let '(e1, c1) := runs_var zf lg st s1 in let '(e2, c2) := runs_var zf lg c1 s2 in (e1 ++ e2, c2).
+Proof.
+  induction s1 as [|[obs a] rest IH]; intros s2 st; cbn [app runs_var].
+  - destruct (runs_var zf lg st s2). reflexivity.
+  - destruct (irun zf lg obs st a) as [e c]. rewrite IH. destruct (runs_var zf lg c rest) as [e1 c1].
+    destruct (runs_var zf lg c1 s2) as [e2 c2]. now rewrite app_assoc.
+Qed.
